@@ -109,12 +109,24 @@ def long_lived_parser():
     return _BOX_PARSER[0]
 
 
+_BOX_PARSER0 = []
+
+
+def long_lived_parser0():
+    """The same, for four-digit years (used through strptime)."""
+    if not _BOX_PARSER0:
+        from metomi.isodatetime import parsers
+        _BOX_PARSER0.append(parsers.TimePointParser(assumed_time_zone=(0, 0)))
+    return _BOX_PARSER0[0]
+
+
 def box_year(mode, y):
     """Enumerate the date boxes for one (mode, year). Yields (key, fail)."""
     D = M.lib()
     cm = R.canon(mode)
     xd = 0 if 0 <= y <= 9999 else 2
     P = long_lived_parser()
+    P0 = long_lived_parser0()
     ml = R.mlens(cm, y)
     near_m = lambda v, top: v in (0, 1, top, top + 1)   # noqa: E731
 
@@ -139,6 +151,16 @@ def box_year(mode, y):
                     yield ("ct", ext, mo, d), nt, _judge(
                         "%s parse(%r)" % (mode, s), valid,
                         _try(lambda: P.parse(s)), "cal_text")
+                if xd == 0:
+                    # the strptime entry point, with and without its
+                    # dump_format keyword
+                    s = "%04d-%02d-%02d" % (y, mo, d)
+                    dfm = "CCYY-MM-DD" if (mo + d) % 2 else None
+                    yield ("cs", mo, d), nt, _judge(
+                        "%s strptime(%r, '%%Y-%%m-%%d', dump_format=%r)" % (
+                            mode, s, dfm), valid,
+                        _try(lambda: P0.strptime(s, "%Y-%m-%d", dump_format=dfm)),
+                        "cal_strptime")
     n = R.ylen(cm, y)
     for doy in range(-1, 369):
         valid = R.valid_ord(cm, y, doy)
@@ -153,6 +175,13 @@ def box_year(mode, y):
                 yield ("ot", ext, doy), nt, _judge(
                     "%s parse(%r)" % (mode, s), valid,
                     _try(lambda: P.parse(s)), "ord_text")
+            if xd == 0:
+                s = "%04d-%03d" % (y, doy)
+                dfm = "CCYY-DDD" if doy % 2 else None
+                yield ("os", doy), nt, _judge(
+                    "%s strptime(%r, '%%Y-%%j', dump_format=%r)" % (mode, s, dfm),
+                    valid, _try(lambda: P0.strptime(s, "%Y-%j", dump_format=dfm)),
+                    "ord_strptime")
     wk = R.weeks_in_year(cm, y)
     for w in range(-1, 56):
         for wd in range(-1, 10):
